@@ -27,7 +27,7 @@ pub const INFO: PropInfo = PropInfo {
         "scripts do not write the framing headers Content-Length / Transfer-Encoding / Connection directly (user's responsibility by the comment at response/mod.rs:151)",
         "1xx and 304 statuses are generated only without content",
     ],
-    expected_probes: &["c03.remove_then_set", "c03.short_write_fired", "c03.backpressure_fired", "c03.head_request", "c03.status_204", "c03.stream", "c03.drop_content", "c03.many_cycles", "c03.cookie", "c03.second_request_answered", "c03.status_changed_after_content", "c03.stream_then_204", "c03.from_into_response", "c03.reader_stalls_for_seconds"],
+    expected_probes: &["c03.remove_then_set", "c03.short_write_fired", "c03.backpressure_fired", "c03.head_request", "c03.status_204", "c03.stream", "c03.drop_content", "c03.many_cycles", "c03.cookie", "c03.second_request_answered", "c03.status_changed_after_content", "c03.stream_then_204", "c03.from_into_response", "c03.reader_stalls_for_seconds", "c03.other_responses_sent_before"],
 };
 
 pub const STD: [&str; 47] = [
@@ -83,6 +83,10 @@ pub struct Scenario {
     /// Some(k): the handler's response starts as `IntoResponse::into_response` of a value of kind k instead of `Response::new(status)`
     #[serde(default)]
     pub first: Option<u8>,
+    /// other responses sent on the same connection (same thread) BEFORE the scripted one: 1 = a small one, 2 = a small one
+    /// and one of 9000 bytes. What the serializer keeps from one response to the next (buffers, sizes) must not show.
+    #[serde(default)]
+    pub warmup: u8,
 }
 
 /// (the response, its status, its content: (content type, bytes)) for `first` kind k
@@ -442,6 +446,7 @@ pub fn generate(_cfg: &RunCfg, _out: &mut Outcome) -> Scenario {
         read_max,
         read_pause_ms,
         first: if !bodyless && t::chance(1, 5) { Some(t::draw(8) as u8) } else { None },
+        warmup: t::weighted(&[3, 2, 1]) as u8,
         wall: match t::draw(4) {
             0 => 1_700_000_000,
             1 => t::range(0, 253_402_300_799),
@@ -598,18 +603,30 @@ fn execute(sc: &Scenario, out: &mut Outcome) {
         (sc.handler_ops.len() + sc.back_ops.len()).min(9)
     ));
 
-    let app = Ohkami::new((ScriptBack, "/r".GET(scripted), "/ping".GET(ping)));
+    let app = Ohkami::new((ScriptBack, "/r".GET(scripted), "/ping".GET(ping), "/big".GET(|| async { "B".repeat(9000) })));
     rt::serve(app);
     let obs: Rc<RefCell<(Option<Result<Resp, RecvErr>>, Option<Result<Resp, RecvErr>>)>> = Rc::new(RefCell::new((None, None)));
     let o2 = obs.clone();
     let (head, short_writes, window, read_max, pause) = (sc.head, sc.short_writes, sc.window, sc.read_max, sc.read_pause_ms);
     let stall = sc.stall;
+    let warmup = sc.warmup;
+    if warmup > 0 {
+        out.probe("c03.other_responses_sent_before");
+    }
     if stall.is_some() {
         out.probe("c03.reader_stalls_for_seconds");
     }
     simcore::spawn_task("client", "client", async move {
         let cfg = ConnCfg { short_writes, window, ..ConnCfg::default() };
         let Ok(mut c) = Client::connect(rt::ADDR, cfg).await else { return };
+        for (k, path) in ["/ping", "/big"].iter().enumerate() {
+            if (k as u8) < warmup {
+                c.send(format!("GET {path} HTTP/1.1\r\nHost: sim\r\n\r\n").as_bytes(), 0);
+                if c.recv(false, DEFAULT_TIMEOUT).await.is_err() {
+                    return;
+                }
+            }
+        }
         let req = format!("{} /r HTTP/1.1\r\nHost: sim\r\n\r\n", if head { "HEAD" } else { "GET" });
         c.send(req.as_bytes(), 0);
         c.stall = stall.map(|(a, ms)| (a, ms * MS));
